@@ -298,3 +298,10 @@ TEXT['C03']['note'] = _TB + 'The hand model of complex_readers.go (Api.ReadValue
 TEXT['C03']['technique'] = 'Coq proof (regenerated tables -> certified simulation -> spec machines -> congruence -> reference tree) with impl/model/encoding-json correspondence'
 TEXT['C08']['level'] = ('PROOF on the model for the offset-composition core + correspondence for arbitrary decoders: PropsC03.C08_ReadValue_offset_is_SkipValue (a successful generic read ends exactly at SkipValue\'s offset), C08_direct_fails_where_SkipValue_fails, C08_traversal_offset / C08_traversal_exact (HandleArrayValues / HandleObjectValues over the REGENERATED tables with any handler that answers each call with an error or the end offset of a successful nested read end, on success, exactly at the reference skipper\'s offset = SkipValue\'s offset, and otherwise with the handler\'s own error), OffsetFacts.*_offset_is_skip (every typed reader model - integers, float, string, bool, null - ends at the reference offset of the value it read). With C03 (tree) and C07 (members in order, exactly once) this gives: a decoder composed of handlers and validating readers visits the members of the reference tree and ends where direct decoding ends, and fails wherever direct decoding fails. PARTIAL in that the set of user decoders is not formalised beyond vr_style handlers; that part is the correspondence: a decoder written only against the public API, choosing per value among typed readers / SkipValue / SkipValueFast / nested handlers by a decision function shared by the Go harness and the OCaml driver, trees and final offsets compared with direct decoding and with encoding/json. At the depth boundary the handler machines impose no limit of their own (OffsetFacts.handle_offset_boundary_ex), so the theorem is stated with the unbounded reference skipper.')
 TEXT['C08']['technique'] = 'Coq proof (offset theorems over regenerated tables) with strategy-interpreter correspondence'
+
+# C04: the decimal path with truncation (sticky flag) is proved; per-run statement over the regenerated tables
+FP_STATIC = FP_STATIC + ['FpDecTrunc.v', 'FpDecInv.v', 'FpDecRound.v', 'FpFull.v', 'FpFull2.v']
+PROPS['C04'].update(run_files=['Tie.v', 'TieFp.v', 'PropsC04.v'],
+                    static_files=BASE_STATIC + FP_STATIC + ['RoundFacts.v', 'FloatTok.v', 'TreeFacts.v'])
+TEXT['C04']['level'] = ('PROOF on the model for every literal outside the two recorded findings: PropsC04.C04_ReadFloat64_correctly_rounded / C04_parse_correctly_rounded: for ALL JSON number literals whose integer part has at most 800 significant digits (fraction arbitrarily long) and whose exponent has at most 5 significant digits, followed by anything that does not continue the token, ReadFloat64 / ParseJSONFloatPrefix over the REGENERATED tables consume exactly the literal and return round_ne of its exact value (Round.v: nearest, ties to even, in exact integer arithmetic; representable / half-ulp / monotone lemmas), or the range error exactly on overflow - whichever of the three paths the literal takes. Ingredients: every row of the regenerated 128-bit powers-of-ten table, log2 approximation, float64pow10, powtab and leftcheats proved exact on every run (TieFp); scanner spec (FpScan); exact path (FpExact); Eisel-Lemire sound incl. the truncated-mantissa recheck (FpEL); decimal path: shifts exact up to truncation, sticky-flag invariant Inv through every 60-bit sub-step, RoundedInteger with the flag = rounding of the exact value (FpDecTrunc, FpDecInv, FpDecRound, FpFull, FpFull2). The number leaves of the C03 tree are these values (C04_tree_numbers_correctly_rounded). The unrestricted statement parse_correct_full is REFUTED on the model (FpFacts.parse_correct_full_false): the two known findings (> 800 significant integer digits on the slow path; exponents of 6+ digits), both shared with strconv.ParseFloat. Correspondence: stage-wise hooks (scanner, exact, Eisel-Lemire, decimal), 38k (quick) / 3.1M (thorough) literals incl. ties with tails at digit 790-806 and exact subnormal ties written out in full; spec round_ne vs implementation and vs strconv.')
+TEXT['C04']['technique'] = 'Coq proof (tables by vm_compute per run; interval and sticky-flag invariants in Z) with stage-wise correspondence'
